@@ -158,6 +158,8 @@ KNOWN_TAGS = [b"Artist", b"ArtistSort", b"Album", b"AlbumSort", b"AlbumArtist", 
 TAGS = [b"Artist", b"Album", b"any", b"MUSICBRAINZ_ALBUMID", b"file", b"albumartist", b"x-custom"] + KNOWN_TAGS
 OPS = [b"==", b"!=", b"contains", b"=~", b"!~"]
 FVAL_SYMS = [[97], [32], [34], [39], [92], [40], [41], [195, 169]]
+# control characters are ordinary value bytes inside the quoted expression: TAB, CR, 0x01, DEL, U+0085 (a C1 control), U+200B
+FVAL_CTL = [[9], [13], [1], [127], [194, 133], [226, 128, 139], [11], [12], [27]]
 FWORDS = [list(b"AND"), [], list(b"(a == \"b\")"), list(b" AND "), list(b"a) AND (b"), list(b"!("), list(b"\\\""), list(b"it's"), list(b"x\\y")]
 
 
@@ -166,9 +168,13 @@ def fvalues(maxlen):
         yield s
     for w in FWORDS:
         yield w
-    for c in COLLIDERS:
+    for c in COLLIDERS + FVAL_CTL:
         yield c
         yield [97] + c + [32, 98]
+    for c in FVAL_CTL:
+        yield c + [97]
+        yield [97, 98] + c
+        yield c + c
 
 
 def leaf(rng, v, i=0):
